@@ -46,3 +46,5 @@ B("C05", "mor-respelled", A, "segAPDU.apduMor = (indx < (self.segmentCount - 1))
 B("C05", "in-window-respelled", A, "rslt = ((seqA - seqB + 256) % 256) < self.actualWindowSize", "rslt = self.actualWindowSize > (seqA - seqB) % 256")
 B("C05", "rename-local", A, "            self.segmentCount, more = divmod(len(apdu.pduData), self.segmentSize)\n            if more:\n                self.segmentCount += 1\n        if _debug: ClientSSM",
   "            self.segmentCount, rest = divmod(len(apdu.pduData), self.segmentSize)\n            if rest:\n                self.segmentCount += 1\n        if _debug: ClientSSM")
+M("C05", "nak-handed-to-application", "appservice.py", "            segack = SegmentAckPDU(1, 0, self.invokeID, self.lastSequenceNumber, self.actualWindowSize)\n            self.request(segack)", "            segack = SegmentAckPDU(1, 0, self.invokeID, self.lastSequenceNumber, self.actualWindowSize)\n            self.response(segack)", ["C05.R4", "C04.R1"], "client's negative ack never leaves the host")
+M("C05", "server-window-own-only", "appservice.py", "        self.actualWindowSize = min(apdu.apduWin, self.ssmSAP.proposedWindowSize)\n        if _debug: ServerSSM", "        self.actualWindowSize = self.ssmSAP.proposedWindowSize\n        if _debug: ServerSSM", ["C05.R9", "C12.R4"])
